@@ -15,6 +15,7 @@ def modelled : List String := [
   "nn/probabilistic.py:ProbabilisticTensorDictSequential.forward",
   "nn/sequence.py:TensorDictSequential.forward",
   "tensorclass.py:_from_tensordict",
+  "base.py:TensorDictBase.consolidate",
   "base.py:_is_tensor_collection",
   "utils.py:_check_keys",
   "utils.py:_getitem_batch_size",
@@ -36,7 +37,6 @@ def differentialOnly : List String := [
   "_torch_func.py:_stack.stack_fn",
   "base.py:TensorDictBase.__exit__",
   "base.py:TensorDictBase._sync_all",
-  "base.py:TensorDictBase.consolidate",
   "base.py:TensorDictBase.lock_",
   "base.py:TensorDictBase.unflatten_keys",
   "nn/common.py:TensorDictModule.__getattr__",
